@@ -237,7 +237,9 @@ def run(ctx) -> None:
         raise AnalysisError("anchor vanished: EventEmitter.queue_event")
     from ..pse import Cfg, Enumerator
 
-    paths = Enumerator(Cfg(P)).run(qfi)
+    from ..threads import ThreadCfg
+
+    paths = Enumerator(ThreadCfg(P, follow_attrs=False)).run(qfi)  # the test may live in a private predicate method of the emitter
     ok = True
     msg = ""
     nput = 0
@@ -258,24 +260,35 @@ def run(ctx) -> None:
     evparam = params[0] if params else "event"
     from ..flow import origins as _origins
 
-    def is_filter(expr) -> bool:
+    def is_filter(expr, fn) -> bool:
         """The expression is the emitter's filter (possibly through a local and a container constructor)."""
-        o = _origins(qfi.node, expr)
+        o = _origins(fn, expr)
         return bool(o) and all(b == "self._event_filter" and set(w) <= {"tuple", "list", "frozenset", "set", "sorted"} for b, w in o)
 
     shape = False
-    for n in ast.walk(qfi.node):
+    # the isinstance test is looked for in queue_event and in the predicate methods it calls on self; in a helper the event is the
+    # parameter that receives queue_event's event parameter
+    scopes = [(qfi.node, evparam)]
+    for hfi in P.self_closure("EventEmitter", "queue_event")[1:]:
+        hparams = [a.arg for a in hfi.node.args.args if a.arg != "self"]
+        for c in ast.walk(qfi.node):
+            if isinstance(c, ast.Call) and isinstance(c.func, ast.Attribute) and c.func.attr == hfi.name and dotted(c.func.value) == "self":
+                for hp, a in zip(hparams, c.args):
+                    if isinstance(a, ast.Name) and a.id == evparam:
+                        scopes.append((hfi.node, hp))
+    for scope, evname in scopes:
+      for n in ast.walk(scope):
         if isinstance(n, ast.Call) and isinstance(n.func, ast.Name) and n.func.id == "isinstance" and len(n.args) == 2:
-            first_ok = isinstance(n.args[0], ast.Name) and n.args[0].id == evparam
+            first_ok = isinstance(n.args[0], ast.Name) and n.args[0].id == evname
             second = n.args[1]
             second_ok = False
-            if isinstance(second, ast.Call) and ast.unparse(second.func) == "tuple" and second.args and is_filter(second.args[0]):
+            if isinstance(second, ast.Call) and ast.unparse(second.func) == "tuple" and second.args and is_filter(second.args[0], scope):
                 second_ok = True
             elif isinstance(second, ast.Name):
-                for g in ast.walk(qfi.node):
-                    if isinstance(g, ast.comprehension) and isinstance(g.target, ast.Name) and g.target.id == second.id and is_filter(g.iter):
+                for g in ast.walk(scope):
+                    if isinstance(g, ast.comprehension) and isinstance(g.target, ast.Name) and g.target.id == second.id and is_filter(g.iter, scope):
                         second_ok = True
-                    if isinstance(g, ast.For) and isinstance(g.target, ast.Name) and g.target.id == second.id and is_filter(g.iter):
+                    if isinstance(g, ast.For) and isinstance(g.target, ast.Name) and g.target.id == second.id and is_filter(g.iter, scope):
                         second_ok = True
             if first_ok and second_ok:
                 shape = True
